@@ -498,6 +498,236 @@ def oracle_history(ctx, impl, furls):
     ctx.extra["history_cases"] = n
 
 
+# ------------------------------------------------------------------------------ SturdyRefs that arrive as copies
+
+TUBS3 = ["q5l37rle6pojjnllrwjyryulavpqdlq5", "u5vgfpug7qhkxdtj76tcfh6bmzyo6w5s", "abc"]
+STALE_EXTRAS = [                                  # attributes a sender of another version / a stored blob may carry
+    {}, {"_key": "STALE"}, {"_key": "SAME"}, {"_hash": 12345}, {"_cached_key": "STALE"}, {"key": "STALE"},
+    {"_distinguishing": "STALE", "_tubref": "x"}, {"tubref": "pb://zzz"}, {"_SturdyRef__key": "STALE"}, {"_eq_key": "STALE"},
+]
+# state that would shadow a method of the class (fixed by 5adbf0d: only the four known attributes are taken)
+SHADOW_EXTRAS = [{"_distinguishers": "x"}, {"_distinguishers": "STALE"}, {"getTubRef": 3}, {"getURL": "x", "__hash__": 1},
+                 {"__eq__": "x", "__class__": "y"}, {"setCopyableState": 0, "_distinguishers": 0}]
+
+
+def build_refs(ctx, impl, rng):
+    """[(how, tubID, name, SturdyRef)] built locally, round-tripped, and received from attribute dictionaries"""
+    from foolscap.referenceable import SturdyRef
+    out = []
+    names = ["alice", "bob", "a/b@c", "\u00e9"]
+    for t in TUBS3:
+        for n in names:
+            f1 = "pb://%s@tcp:one.example.org:1234/%s" % (t, n)
+            f2 = "pb://%s@tcp:two.example.org:99,10.1.2.3:8/%s" % (t, n)
+            out.append(("local", t, n, SturdyRef(f1)))
+            out.append(("round-tripped", t, n, impl.roundtripped_sturdyref(f2)))
+            for k, extra in enumerate(STALE_EXTRAS):
+                other_t = TUBS3[(TUBS3.index(t) + 1) % 3]
+                other_n = names[(names.index(n) + 1) % len(names)]
+                fill = {"STALE": [True, other_t, other_n] if k % 2 else [True, t, other_n], "SAME": [True, t, n]}
+                st = {"url": f2 if k % 2 else f1, "tubID": t, "locationHints": ["x:%d" % k], "name": n}
+                for a, v in extra.items():
+                    st[a] = tuple(fill[v]) if v in fill else v
+                if (k + len(n)) % 7 == 3:
+                    del st["url"]                     # a sender need not send every attribute
+                out.append(("received%s" % (sorted(extra) or ""), t, n, impl.received_sturdyref(st)))
+    return out
+
+
+def oracle_identity_copies(ctx, impl, rng):
+    """identity is judged on the tub id and name a reference HAS, however it was built"""
+    refs = build_refs(ctx, impl, rng)
+    pairs = []
+    for i, (ha, ta, na, a) in enumerate(refs):
+        if (a.tubID, a.name) != (ta, na):
+            ctx.fail("oracle/sturdyref-copy-identity", "a %s SturdyRef has (tubID, name) = %r, its state said %r" % (ha, (a.tubID, a.name), (ta, na)),
+                     replay=dict(how=ha, tubID=ta, name=na))
+        for j, (hb, tb, nb, b) in enumerate(refs):
+            if (i * 7 + j * 3) % 5 and ha == hb == "local":
+                continue
+            same = (ta, na) == (tb, nb)
+            v = impl.identity_verdict(a, b)
+            ctx.case(["copy-identity", ha, hb, ta, na, tb, nb], nontrivial=True)
+            ok = (v == [True, False, True, True, True]) if same else (isinstance(v, list) and v[0] is False and v[1] is True
+                                                                      and v[3] is False and v[4] is False)
+            pairs.append((ta, na, tb, nb, v[0] if isinstance(v, list) else None))
+            if not ok:
+                ctx.fail("oracle/sturdyref-copy-identity",
+                         "SturdyRef %s (tubID %s.., name %r) vs %s (tubID %s.., name %r): tub id and name are %s, but "
+                         "[==, !=, same hash, dict hit, set hit] = %s" % (ha, ta[:6], na, hb, tb[:6], nb,
+                                                                          "EQUAL" if same else "DIFFERENT", v),
+                         replay=dict(a=dict(how=ha, tubID=ta, name=na), b=dict(how=hb, tubID=tb, name=nb), verdict=v,
+                                     python="harness.c20_impl.received_sturdyref(state) / identity_verdict(a, b)"))
+    ctx.hist("identity", "pairs incl. received copies", len(pairs))
+    # state that shadows a method of the class
+    from foolscap.referenceable import SturdyRef
+    t, n = TUBS3[0], "alice"
+    loc = SturdyRef("pb://%s@h:1/%s" % (t, n))
+    for extra in SHADOW_EXTRAS:
+        st = {"url": "pb://%s@h:1/%s" % (t, n), "tubID": t, "locationHints": ["h:1"], "name": n}
+        st.update({k: (tuple([True, t, "bob"]) if v == "STALE" else v) for k, v in extra.items()})
+        r = impl.received_sturdyref(st)
+        v = impl.identity_verdict(r, loc)
+        ctx.case(["copy-identity-shadow", sorted(extra)], nontrivial=True)
+        try:
+            usable = (r.getTubRef().getTubID() == t and r.getURL() == st["url"] and r.getTubRef() == loc.getTubRef())
+        except Exception as e:  # noqa
+            usable = type(e).__name__
+        if usable is not True and v == [True, False, True, True, True]:
+            v = "getTubRef()/getURL(): %s" % usable
+        if v != [True, False, True, True, True]:
+            ctx.fail("oracle/sturdyref-copy-shadows-method",
+                     "a received SturdyRef whose state carries the attribute %s (tubID and name equal to a local reference's): "
+                     "[==, !=, same hash, dict hit, set hit] = %s" % (sorted(extra), v),
+                     replay=dict(state={k: repr(x) for k, x in st.items()}, verdict=v))
+    return pairs
+
+
+def correspond_identity(ctx, pairs):
+    """the model's sref_eqb on the same (tub id, name) pairs"""
+    rows = ["(%s%%Z, %s%%Z, %s%%Z, %s%%Z)" % (zs(a), zs(b), zs(c), zs(d)) for a, b, c, d, _ in pairs]
+    rows = rows[:2000]
+    body = ("\nDefinition cases : list (list Z * list Z * list Z * list Z) := " + coq_list(rows) + ".\n"
+            "Definition mk (t n : list Z) := {| sr_tub := Some t; sr_hints := []; sr_name := Some n; sr_url := None |}.\n"
+            "Eval vm_compute in map (fun c => let '(a, b, c0, d) := c in sref_eqb (mk a b) (mk c0 d)) cases.\n")
+    try:
+        (vals,) = ctx.coq_eval("C20_ident", body, requires=REQ)
+    except common.CoqEvalError as e:
+        ctx.fail("correspondence-broken", "the identity model could not be evaluated: " + tail(str(e), 1200), has_input=False)
+        return
+    bad = 0
+    for (a, b, c, d, got), mv in zip(pairs, vals):
+        ctx.traces += 1
+        if got is not None and got != mv:
+            bad += 1
+            if bad <= 2:
+                ctx.fail("correspondence/sturdyref-eq", "model sref_eqb = %r, implementation == gives %r for (%r, %r) vs (%r, %r)"
+                         % (mv, got, a, b, c, d), replay=dict(a=[a, b], b=[c, d]), has_input=False)
+    ctx.extra["identity_correspondence_cases"] = len(vals)
+
+
+# ------------------------------------------------------------------------------ one Tub, histories of getReference
+
+BAD_HINTSETS = ["future:stuff:7,udp:10.0.0.1:53", "tcp:host:NOTAPORT,tcp:[::1:80", "", "x", "tor:a.b:80,i2p:abc", "tcp:a:123456"]
+GOOD_HINTSETS = ["tcp:good.example.org:1234", "good2.example.org:7", "future:x:1,tcp:ok.example.org:80", "tcp:[::1]:9,udp:1.2.3.4:5"]
+
+
+def gen_history(rng):
+    tubs = rng.sample(TUBS3[:2] + ["aaaaaaaabbbbbbbbccccccccdddddddd"], rng.choice([1, 1, 2]))
+    evs = []
+    for _ in range(rng.randrange(2, 8)):
+        k = rng.random()
+        if k < 0.7:
+            t = rng.choice(tubs)
+            usable = rng.random() < 0.45
+            hs = rng.choice(GOOD_HINTSETS if usable else BAD_HINTSETS)
+            evs.append(["getref", "pb://%s@%s/n%d" % (t, hs, len(evs))])
+        else:
+            evs.append(["advance", rng.choice([0, 1, 59, 60, 119, 120, 121, 500])])
+    return evs
+
+
+def oracle_tub_histories(ctx, impl, rng):
+    """"an untrusted FURL cannot stall the process": on one real Tub (default handlers, recorded endpoints that never
+    answer, virtual clock) play getReference calls for FURLs with and without usable hints and let time pass; every
+    getReference must be answered once the connect timeout has passed, and a FURL with a usable hint must start a
+    connection attempt unless one for that tub is still running."""
+    timeout = impl.connection_timeout()
+    hists = []
+    for i, bad in enumerate(BAD_HINTSETS):               # fixed two-step witnesses first
+        t = TUBS3[i % 2]
+        hists.append([["getref", "pb://%s@%s/gift" % (t, bad)], ["getref", "pb://%s@tcp:good.example.org:1234/real" % t],
+                      ["advance", timeout + 1]])
+    hists.append([["getref", "pb://%s@/a" % TUBS3[0]], ["getref", "pb://%s@/b" % TUBS3[0]], ["getref", "pb://%s@x:1/c" % TUBS3[0]],
+                  ["advance", 60], ["getref", "pb://%s@/d" % TUBS3[0]], ["getref", "pb://%s@y:2/e" % TUBS3[0]], ["advance", 61]])
+    hists += [gen_history(rng) for _ in range(ctx.n(40, 600))]
+    cases = []
+    for evs in hists:
+        evs = evs + [["advance", timeout + 1]]
+        usable = []
+        for e in evs:
+            if e[0] == "getref":
+                d = impl.decode(e[1])
+                hs = d[2] if d[0] == "ok" else []
+                usable.append(any(impl.get_endpoint(h, {"tcp": "tcp"})[0] == "ok" for h in hs))
+            else:
+                usable.append(None)
+        obs = impl.tub_history(evs)
+        ctx.case(["tub-history", evs], nontrivial=True)
+        ctx.hist("tub history length", len(evs))
+        live_until = {}                                   # tub id -> time its running attempt ends
+        now = 0
+        issued = {}
+        problem = None
+        for i, (e, o) in enumerate(zip(evs, obs)):
+            if e[0] == "getref":
+                t = impl.decode(e[1])[1]
+                issued[i] = now
+                running = live_until.get(t, -1) > now
+                if usable[i] and not running:
+                    if not o["connects"]:
+                        problem = "event %d: getReference(%r) has a usable hint and no attempt to that tub is running, but no connection attempt started" % (i, e[1])
+                    live_until[t] = now + timeout
+                if not usable[i] and not running and i not in o["fired"]:
+                    problem = problem or "event %d: getReference(%r) has no usable hint but is still unanswered" % (i, e[1])
+            else:
+                now += e[1]
+            for j, at in issued.items():
+                if now - at >= timeout + 1 and j not in o["fired"]:
+                    problem = problem or ("getReference(%r) (event %d) is still unanswered %d s later (connect timeout %d s)"
+                                          % (evs[j][1], j, now - at, timeout))
+            if problem:
+                break
+        if problem:
+            ctx.fail("oracle/getreference-stalls", "history on one Tub %r: %s" % (evs, problem),
+                     replay=dict(events=evs, observations=obs, python="harness.c20_impl.tub_history(events)"))
+        cases.append((evs, usable, obs))
+    ctx.extra["tub_histories"] = len(cases)
+    return cases
+
+
+def correspond_tub(ctx, cases):
+    tubs = {}
+    rows = []
+    from harness import c20_impl as impl
+    for evs, usable, obs in cases:
+        items = []
+        for e, u in zip(evs, usable):
+            if e[0] == "getref":
+                t = impl.decode(e[1])[1]
+                items.append("GetRef %d%%Z %s" % (tubs.setdefault(t, len(tubs) + 1), "true" if u else "false"))
+            else:
+                items.append("Advance %d%%Z" % e[1])
+        rows.append(coq_list(items))
+    body = ("\nDefinition cases : list (list cev) := " + coq_list(rows) + ".\n"
+            "Eval vm_compute in map (ctrace connector_stored_before_connect CONNECTION_TIMEOUT cinit) cases.\n")
+    try:
+        (vals,) = ctx.coq_eval("C20_tub", body, requires=REQ + ["Verif.lib.Connector"])
+    except common.CoqEvalError as e:
+        ctx.fail("correspondence-broken", "the connector model could not be evaluated: " + tail(str(e), 1200), has_input=False)
+        return
+    bad = 0
+    for (evs, usable, obs), tr in zip(cases, vals):
+        ctx.traces += 1
+        num = {}
+        for i, e in enumerate(evs):
+            if e[0] == "getref":
+                num[i] = len(num)
+        started = set()
+        for i, (e, o, m) in enumerate(zip(evs, obs, tr)):
+            if e[0] == "getref" and o["connects"]:
+                started.add(num[i])
+            mine = (sorted(m[0]), sorted(m[1]))
+            theirs = (sorted(num[j] for j in o["fired"]), sorted(started))
+            if mine != theirs:
+                bad += 1
+                if bad <= 2:
+                    ctx.fail("correspondence/tub-connectors", "after event %d of %r the model has (answered, started) = %r, the Tub %r"
+                             % (i, evs, mine, theirs), replay=dict(events=evs, model=repr(tr), impl=obs), has_input=False)
+                break
+    ctx.extra["tub_correspondence_disagreements"] = bad
+
+
 # ------------------------------------------------------------------------------ CPU time
 
 def run_probe(payload, limit):
@@ -656,6 +886,11 @@ def run(ctx):
               "tor:10.0.0.1:80", "tor:8.8.8.8:80", "10.0.0.1:80", "tor:\u0661.\u0662.\u0663.\u0664:80", "a:\u0663",
               "tcp:[1:2%e.0]:5", "tcp:[1.2.3.4]:5", "tcp:[1:1.2.3.4]:5", "tcp:[12.3.4.5]:6", "tcp:[123.4.5.6]:7", "tcp:[1234.5.6.7]:8"]
     hint_cases = [(h, HANDLER_SETS[i % len(HANDLER_SETS)] if i % 3 else HANDLER_SETS[1]) for i, h in enumerate(hints)]
+    # fixed witnesses: hosts that look like a dotted quad but are not an IPv4 address, through every handler set with tor
+    for h in ("tor:256.1.1.1:80", "tor:010.0.0.1:80", "tor:\u0661.\u0662.\u0663.\u0664:80", "tor:999.999.999.999:1", "1.1.256.127:2706",
+              "tor:1.2.3.4:5", "tor:127.0.0.1:5", "tor:[::1]:5", "tor:1.2.3:4", "tor:1.2.3.4.5:6", "tor:0.0.0.0:0"):
+        for hs in (HANDLER_SETS[1], HANDLER_SETS[2], HANDLER_SETS[3]):
+            hint_cases.append((h, hs))
     furls = []
     for _ in range(ctx.n(500, 20000)):
         f = gen_furl(rng)
@@ -739,6 +974,17 @@ def run(ctx):
         correspond_functions(ctx, impl, furls, hint_cases)
         if ok:
             model_steps(ctx, impl)
+
+    # 3a. identity of references that arrive as copies; getReference histories on one real Tub
+    id_pairs = oracle_identity_copies(ctx, impl, rng)
+    tub_cases = oracle_tub_histories(ctx, impl, rng)
+    if model_ok:
+        correspond_identity(ctx, id_pairs)
+        ok_c = True
+        if not ok:
+            ok_c, _ = ctx.coq_build(["lib/Connector.vo"])
+        if ok_c:
+            correspond_tub(ctx, tub_cases)
 
     # 3b. history independence (last of the in-process checks: on a defective tree it leaves altered results behind)
     hist_pool = [s for s, d in zip(furls, decoded) if d is not None and len(d[1]) >= 1][:ctx.n(120, 2000)]
